@@ -5,7 +5,7 @@ import RV.C08.Tables
 
   rdflib/plugins/sparql/evalutils.py   _val, _eval
   rdflib/term.py                        Identifier.__lt__/__gt__, Literal.__gt__/__lt__/eq/__eq__
-  rdflib/plugins/sparql/datatypes.py   type_promotion (tables regenerated into Tables.lean)
+  rdflib/plugins/sparql/datatypes.py   type_promotion (its answers on all datatype pairs, probed into Tables.lean)
   rdflib/plugins/sparql/operators.py   numeric, AdditiveExpression, RelationalExpression (numeric operands)
   rdflib/plugins/sparql/aggregates.py  Accumulator.use_row, Counter, Sum, Average, Extremum, Sample, GroupConcat, Aggregator
   rdflib/plugins/sparql/algebra.py     translate (modifier part), translateAggregates, _sample, _aggs
@@ -153,9 +153,9 @@ def numericOf : Term → Option (DT × Rat × Nat)
   | .num d v sc => if d.isNumericOp then some (d, v, sc) else none
   | _ => none
 
-/-- `datatypes.type_promotion` (both arguments given); `none` = the TypeError it raises -/
-def typePromotion (t1 t2 : DT) : Option DT :=
-  if t1.superType = t2.superType then some t1.superType else promoMap t1.superType t2.superType
+/-- `datatypes.type_promotion` (both arguments given); `none` = the TypeError it raises.
+    The table holds the answers of the live function on all pairs (regenerated on every run). -/
+def typePromotion (t1 t2 : DT) : Option DT := promoTab t1 t2
 
 def DT.isFloating (d : DT) : Bool := d == .float || d == .double
 def DT.isIntegral (d : DT) : Bool := d.superType == .integer
